@@ -114,8 +114,24 @@ def _stream_pair(job):
     return out
 
 
+def cold_pair(payload):
+    """(alone in a pristine interpreter) both planner paths for a schedule with hundreds of units: the
+    memoised planner recurses about two frames per unit, the tabulated one is iterative."""
+    return _stream_pair(tuple(payload["job"]))
+
+
+COLD = {"quick": [(340, 336, "RAM")], "thorough": [(340, 336, "RAM"), (455, 450, "DISK")]}
+
+
+def _cold_viol(job):
+    out = R.pristine_call("vlib.props.c16.cold_pair", {"job": list(job)})
+    return [(("Mixed", pred), dict(cfg, cold=True), detail + " [alone in a fresh interpreter]", "cold") for pred, cfg, detail in out["viol"]]
+
+
 def check_witness(data, show=False):
     w = data["witness"]
+    if isinstance(w, dict) and w.get("cold"):
+        return _cold_viol((w["n"], w["s"], w["storage"]))
     if data.get("kind") == "entry":
         n, s = w["n"], w["s"]
         cnt, bad = _table((max(n, s + 1), n, n))
@@ -137,6 +153,7 @@ def run(prop, args):
     NT, ST = (320, 40) if tier == "quick" else (640, 64)
     import multiprocessing.pool
     tall_async = R.pool().apply_async(_tall, ((NT, ST),))
+    cold = [(j, R.pristine_start("vlib.props.c16.cold_pair", {"job": list(j)})) for j in COLD[tier]]
     parts = R.pmap(_table, [(N, lo, min(lo + 3, N)) for lo in range(1, N + 1, 4)], chunksize=1)
     tall_cnt, tall_bad = tall_async.get(timeout=7200)
     parts.append((tall_cnt, tall_bad))
@@ -176,6 +193,16 @@ def run(prop, args):
                             "stream_digest": out.get("digest"), "first_actions": out.get("head")})
         for pred, cfg, detail in out["viol"]:
             rep.add_violation(("Mixed", pred), cfg, detail)
+    for j, h in cold:
+        out = R.pristine_wait(h)
+        rep.evaluations += 2
+        if out["status"] == "inconclusive":
+            rep.inconclusive += 1
+            continue
+        rep.nontrivial.add(("stream", ) + tuple(j))
+        rep.count("regions", "cold-many-units")
+        for pred, cfg, detail in out["viol"]:
+            rep.add_violation(("Mixed", pred), dict(cfg, cold=True), detail + " [alone in a fresh interpreter]", kind="cold")
     R.run_regress(rep, check_witness)
     if not rep.samples:
         rep.sample({"call": "MixedCheckpointSchedule(%d,%d,storage=%s) on both planner paths" % tuple(res[-1]["job"]), "stream_digest": res[-1].get("digest")})
@@ -185,6 +212,9 @@ def run(prop, args):
     def shrink(b, w):
         if b[0] != "Mixed":
             return None
+        if w.get("cold"):
+            v = [x for x in _cold_viol((w["n"], w["s"], w["storage"])) if x[0][1] == b[1]]
+            return (v[0][1], v[0][2]) if v else None
 
         def fails(c):
             return any(p == b[1] for p, _, _ in _stream_pair((c["n"], c["s"], c["storage"]))["viol"])
